@@ -11,12 +11,23 @@
    appended verbatim; C09_unknown_untouched_step: every other occurrence leaves the section alone)
    and for a run of rejected fields anywhere in the input (C09_unknown_preserved_run: appended in
    input order, decoding continues after it); unknown_reemitted; discard_unknown.
-   schema_evolution: the positive statement (decode S (encode S' (decode S' (encode S m))) = m for
-   every valid m and S' = S minus fields) is NOT proved (it needs the wire-scanner completeness
-   theorem for encoder output, under two schemas); it is checked on the implementation and
-   against the model on every run (harness op `evo`), computed on the C03 example
-   (C09_schema_evolution_example), and its necessity of the hypothesis "an encoding of a message"
-   is shown by C09_schema_evolution_arbitrary_bytes_refuted. *)
+   schema_evolution: decode S (encode S' (decode S' (encode S m))) = m, identity of canonical values, for
+   S' = S with an ARBITRARY set of fields deleted in every message type ([msg_restrict keep S]), is
+   proved for every valid m whose populated top-level fields that are KEPT are of scalar kind
+   ([msg_kept_scalar]: all 16 scalar kinds, explicit/implicit/required presence, packed and expanded
+   lists, maps with scalar values, oneofs of scalars, extensions); the DELETED populated fields are
+   arbitrary -- scalars, messages with any nested content, groups, lists and maps of messages -- and so
+   are the unknown fields: C09_schema_evolution_partial.  Second version, C09_schema_evolution_top_partial:
+   ANY set of fields of the ROOT message type deleted, kept and deleted fields of EVERY kind (messages,
+   groups, lists and maps of messages, with any nested content), for every valid m -- provided the nested
+   message types are left unchanged ([keep t n = true] for t <> 0) and the root type is not recursive
+   ([msg_root_unref]).  MISSING for the general statement: deletions inside the type of a KEPT populated
+   message-typed field -- its encoding (full schema) is then decoded by a reduced schema one level down,
+   which needs the induction with two schemas at every depth; this case is checked on the implementation
+   and against the model on every run (harness op `evo`) and computed on the C03 example
+   (C09_schema_evolution_example).
+   The hypothesis "an encoding of a message" is necessary:
+   C09_schema_evolution_arbitrary_bytes_refuted. *)
 From Coq Require Import List NArith ZArith.
 From PB Require Import Base.PBytes Wire.WireModel.
 From PB Require Import Msg.MsgSchema Msg.MsgValue Msg.MsgEnc Msg.MsgDec Msg.MsgValid Msg.MsgRoundP Msg.MsgExample
@@ -69,6 +80,34 @@ Theorem C09_discard_unknown :
     msg_decode_discard slow S limit tid bs = DOk v -> msg_has_unknown v = false.
 Proof. exact msg_discard_unknown. Qed.
 Print Assumptions C09_discard_unknown.
+
+(* [m] must be canonical for the path that decodes with the full schema ([slow]) and for the
+   reflection path, which decodes with the reduced schema (dynamicpb of the reduced descriptor) *)
+Theorem C09_schema_evolution_partial :
+  forall (slow : bool) (S : schema) (keep : nat -> N -> bool) (limit : nat) (fs : fields) (unk : list byte),
+    msg_valid slow S limit O (VMsg fs unk) = true ->
+    msg_valid true S limit O (VMsg fs unk) = true ->
+    msg_kept_scalar (keep O) (nth O S []) fs = true ->
+    msg_evolve slow S (msg_restrict keep S) limit (msg_encode S O (VMsg fs unk)) = DOk (VMsg fs unk).
+Proof. exact msg_schema_evolution_kept_scalar. Qed.
+Print Assumptions C09_schema_evolution_partial.
+Example C09_schema_evolution_partial_nonvacuous :
+  msg_valid false ex_schema 3 O ex_msg = true /\ msg_valid true ex_schema 3 O ex_msg = true /\
+  (match ex_msg with VMsg fs _ => msg_kept_scalar (ex_keep_scalar O) (nth O ex_schema []) fs | _ => false end) = true.
+Proof. exact ex_kept_scalar_ok. Qed.
+
+(* any fields of the (non-recursive) root message type deleted; nested types unchanged; all kinds *)
+Theorem C09_schema_evolution_top_partial :
+  forall (slow : bool) (S : schema) (keep : nat -> N -> bool) (limit : nat) (fs : fields) (unk : list byte),
+    (forall t n, t <> O -> keep t n = true) -> msg_root_unref S ->
+    msg_valid slow S limit O (VMsg fs unk) = true ->
+    msg_valid true S limit O (VMsg fs unk) = true ->
+    msg_evolve slow S (msg_restrict keep S) limit (msg_encode S O (VMsg fs unk)) = DOk (VMsg fs unk).
+Proof. exact msg_schema_evolution_top. Qed.
+Print Assumptions C09_schema_evolution_top_partial.
+Example C09_schema_evolution_top_nonvacuous :
+  msg_root_unref ex_top /\ msg_valid false ex_top 4 O ex_top_msg = true /\ msg_valid true ex_top 4 O ex_top_msg = true.
+Proof. split; [exact ex_top_unref|exact ex_top_ok]. Qed.
 
 Theorem C09_schema_evolution_arbitrary_bytes_refuted :
   exists S keep bs v v',
